@@ -52,6 +52,25 @@ def judge : List String → String
       else if st.length == 3 && st.startsWith "4" then "ok"
       else s!"viol refusal-status-{st}"
     | _, _ => "bad-op"
+  -- same, plus the description of the key the returned certificate actually carries
+  | ["jkey", p, d, st, same, certd] =>
+    match pPath p, pDesc d with
+    | some _, some d =>
+      if st == "PANIC" then "viol panic"
+      else if st == "200" then
+        match pDesc certd with
+        | some (.key ck) =>
+          if !spec ck then "viol weak-key-certified"
+          else match d with
+            | .unparsable => "viol certificate-for-unparsable-key"
+            | .key k =>
+              if !spec k then "viol weak-key-certified"
+              else if same != "1" then "viol certificate-for-a-different-key"
+              else "ok"
+        | _ => "viol certificate-key-unreadable"
+      else if st.length == 3 && st.startsWith "4" then "ok"
+      else s!"viol refusal-status-{st}"
+    | _, _ => "bad-op"
   | ["jtok", st] => if st == "PANIC" then "viol panic" else if st.length == 3 then "ok" else "bad-op"
   | _ => "bad-op"
 
